@@ -60,11 +60,13 @@ def __convert_tracepoint(tracepoint: TrPoCo):
 
 
 def __convert_frame(frame: StFr):
-    return StackFrame(file_name=frame.file_name, short_path=frame.short_path, method_name=frame.method_name,
-                      line_number=frame.line_number, class_name=frame.class_name, is_async=frame.is_async,
+    # file names decoded with 'surrogateescape' (undecodable bytes on disk) carry lone surrogates
+    return StackFrame(file_name=__text(frame.file_name), short_path=__text(frame.short_path),
+                      method_name=__text(frame.method_name),
+                      line_number=frame.line_number, class_name=__text(frame.class_name), is_async=frame.is_async,
                       column_number=frame.column_number, variables=[__convert_variable_id(v) for v in frame.variables],
                       app_frame=frame.app_frame,
-                      transpiled_file_name=frame.transpiled_file_name,
+                      transpiled_file_name=__text(frame.transpiled_file_name),
                       transpiled_line_number=frame.transpiled_line_number,
                       transpiled_column_number=frame.transpiled_column_number,
                       )
@@ -80,7 +82,7 @@ def __convert_watch(watch: WaRe):
 
 
 def __convert_variable(variable: Var):
-    return Variable(type=variable.type, value=__text(variable.value), hash=variable.hash,
+    return Variable(type=__text(variable.type), value=__text(variable.value), hash=variable.hash,
                     children=[__convert_variable_id(c) for c in variable.children], truncated=variable.truncated)
 
 
